@@ -46,8 +46,10 @@ pub fn check_one(info: &LangInfo, parser: &mut Parser, text: &[u8], res: &mut Sh
         return;
     };
     let xt = XTree::build(&tree);
+    crate::run::oracle_phase(true);
     for f in wf::check(info, text, &xt, None) { res.violation(&f.fingerprint, f.msg, case_json(&info.name, text)); }
     if let Err(m) = xtree::check_summaries(&tree) { res.violation("stale-summary", m, case_json(&info.name, text)); }
+    crate::run::oracle_phase(false);
     if xt.has_error_or_missing() { res.nontrivial += 1; }
     res.outcome(crate::util::fnv_mix(crate::util::fnv_mix(xt.nodes.len() as u64, xt.root_has_error() as u64), xt.nodes.iter().filter(|n| n.missing).count() as u64));
 }
